@@ -34,7 +34,13 @@ def domain_iter_report():
 def run(tier):
     from ..contracts import cvec, aggsite
     # "collections of factors combine clique by clique": CliqueVector arithmetic in the one-key view, combine by site contracts
-    return deductive.verify_module('factor', nproc=14) + [deductive.lemma_report(), domain_iter_report()] + cvec.reports() + aggsite.reports()
+    return deductive.verify_module('factor', nproc=14) + [deductive.lemma_report(), domain_iter_report()] + cvec.reports() + aggsite.reports() + _constant_tables()
+
+
+def _constant_tables():
+    # Factor.zeros / ones / uniform: the tables estimation starts from (on the given domain, of its shape; uniform = ones / number of cells)
+    from ..contracts import active
+    return [deductive.verify_function(rel, q, c, hooks=active.hooks_for(c), prefix='%s::%s[constant table]' % (rel, q)) for rel, q, c in active.CONST_ITEMS]
 
 
 def replay(prop, ob):
